@@ -80,6 +80,10 @@ def run(ctx):
                            "before the message is inserted" if ins is None else
                            "while the insert is uncommitted"), render_path(p.events))
                 # message identity
+                if ins is not None and not (e["args"] and e["args"][0][0] == "nt"):
+                    ctx.ob("R02.fanout", "%s: broadcast message equals the stored one" % h_add,
+                           False, e, "what is broadcast is %s, not the message this add "
+                           "submitted" % (show(e["args"][0])[:70] if e["args"] else "nothing"))
                 if ins is not None and e["args"] and e["args"][0][0] == "nt":
                     nt = dict(e["args"][0][2])
                     s = ins["src"]["set"]
@@ -105,6 +109,11 @@ def run(ctx):
                 n = sum(1 for x, _ in flat_events(alt["events"])
                         if x["k"] == "callback" and x["role"] == "send_f")
                 if n != 1 or alt["out"] != "normal":
+                    every = False
+                # ... and the callback really emits one `message` frame
+                nmsg = sum(1 for x, _ in flat_events(alt["events"])
+                           if x["k"] == "send" and frame_type(x) == "message")
+                if nmsg != n:
                     every = False
             ctx.ob("R02.fanout", "%s: exactly one callback per listener" % e["func"], every, e,
                    "" if every else "some iteration of the broadcast loop calls the "
